@@ -36,7 +36,7 @@ def _getformat(val):
     string
         the format string.
     """
-    if int(val) == val:
+    if np.isfinite(val) and int(val) == val:
         return "%.1f"
     else:
         return "%.16g"
@@ -266,9 +266,9 @@ class _ToInf(TokenConverter):
         Returns
         -------
         float
-            the float value for infinity.
+            the float value for (signed) infinity.
         """
-        return float('inf')
+        return float(tokenlist[0])
 
 
 class InputFileGenerator(object):
@@ -1091,7 +1091,7 @@ class FileParser(object):
         # special case for a float written like "3e5"
         mixed_exp = _ToFloat(Combine(digits + ee + Optional(sign) + digits))
 
-        nan = (_ToInf(oneOf("Inf -Inf")) |
+        nan = (_ToInf(oneOf("Inf -Inf inf -inf")) |
                _ToNan(oneOf("NaN nan NaN%  NaNQ NaNS qNaN sNaN 1.#SNAN 1.#QNAN -1.#IND")))
 
         string_text = Word(textchars)
